@@ -265,7 +265,7 @@ def shard(ctx: Ctx):
 
         @st.composite
         def bad_cases(draw):
-            s_, text0, f = draw(c07.cases(strict_features(), sizes))
+            s_, text0, f = draw(c07.cases(strict_features(), sizes))[:3]
             text = render(f[1], '\n', True) if f else text0
             return s_, text, 'props' if s_.allow_properties else 'default'
 
